@@ -9,8 +9,8 @@ P = {
          "does not decide result values, defaults of optional arguments or in-range behaviour of each function"),
  "C03": ("absence of the enumerated panic classes on every path: unchecked type assertions, nil interface receivers in Error(), reversed two-sided slices, constant indices without a length fact, division by zero, magnitude-driven allocations, explicit panics / Must* / NaN-panicking decimal methods, interface == on uncomparable values, dropped errors; unbounded recursion is a recorded finding",
          "general index/slice bounds safety (135 bounds checks the compiler cannot prove) and nil-map/nil-pointer safety beyond the listed receivers are not decided"),
- "C04": ("rejection side of the grammar: exhaustive token dispatch, closers on every success path, no swallowed scanner/decoder error, character classes per scanner, escape tables, strict JSON-literal decoding, every parse failure mapped to a syntax error except the four static function/slice faults",
-         "equality of the accepted language with the ABNF (whitespace placement, `a. *`, `[ * ]`) is not decided"),
+ "C04": ("the token language (every path of the lexer over symbolic runes yields exactly the tokens of the lexical grammar for exactly their spellings) and the phrase structure one level at a time (the token/sub-expression sequences each grammar function accepts are exactly the productions of the specification, every consumed token pinned); exhaustive token dispatch, no swallowed scanner/decoder error, character classes and escape tables of the literal decoders, strict JSON-literal decoding, every parse failure mapped to a syntax error except the four static function/slice faults",
+         "the composition of the per-function productions into the whole recursive language is not decided (each sub-parser call is opaque in its caller)"),
  "C05": ("no value routed through binary floating point or machine integers unless it arrived that way; per-kind value-preserving decimal constructors; operator → decimal128 primitive chain with operand order; Inf/NaN trapped on every arithmetic result and mapped to not-a-number; no struct equality on decimals",
          "decimal128 itself is trusted; numeric results and rounding of //, % for mixed signs are not decided"),
  "C06": ("effect analysis: no instruction of the evaluator/root packages writes memory not allocated in the same call (incl. append into spare capacity, in-place sorts, library mutators); AST, Expression and evaluator are write-once; no package state; API wrappers have the documented shape and MustCompile panics exactly on the Parse error",
@@ -21,7 +21,7 @@ P = {
          "which of several simultaneous faults is reported is not decided (the property allows any)"),
  "C09": ("every evaluator loop and allocation bounded by input sizes (never by an integer's magnitude), decode loops advance, lexer/decoder loops make progress, parser recursion consumes a token per cycle, evaluator recursion is structural and evaluates each child once per path",
          "the degree of the polynomial and library call costs are assumed; unbounded recursion depth is a recorded finding"),
- "C10": ("binding-power order, strict loop test + recursion at the operator's own power (left associativity), refresh of the power on every iteration, prefix operand powers, entry powers below the pipe, closing parenthesis, operator → primitive chain",
+ "C10": ("binding-power order (precedence interpreted on every token), one enumerated iteration of the operator loop per token and caller power: taken exactly when strictly tighter, right operand at the operator's own power (left associativity), own node from untouched operands, next comparison on the then-current token; prefix operand powers, powers inside delimiters below the pipe, closing parenthesis, operator → primitive chain",
          "for a Pratt parser these table and loop facts are the grouping; interaction with projections is covered under C01"),
  "C11": ("units analysis separating byte quantities from code-point quantities in every integer operation, string cut and integer result; no byte indexing of strings; decode loops advance; lexer positions move only by decoded sizes; U+FFFD is a character",
          "code-point ordering of string comparison is a library fact; the rename-equivariance clause as such is not decided"),
@@ -54,6 +54,19 @@ def rules_of(pid):
             rs.append(f[0])
     return rs
 
+INTERP = {"T-LEX", "T-PREC", "T-INFIX", "T-PRIMARY", "T-INDEX", "T-FUNC", "T-DELIMS", "D-DISPATCH", "E-OPCHAIN", "E-TOINT", "E-SCOPE-CHAIN", "A-ERRMAP", "A-API-SHAPE", "A-NIL-RESULT"}
+
+def technique(rs):
+    interp = [r for r in rs if r in INTERP]
+    other = [r for r in rs if r not in INTERP]
+    t = "static analysis of the type-checked program and its SSA form, nothing executed: "
+    parts = []
+    if interp:
+        parts.append("path-enumerating abstract interpretation over go/ssa with symbolic tokens/runes/nodes/operands, repository helpers inlined, compared with the specification's tables (" + ", ".join(interp) + ")")
+    if other:
+        parts.append("dominance / dataflow / effect / size-bound / units / call-graph rules (" + ", ".join(other[:8]) + (" …" if len(other) > 8 else "") + ")")
+    return t + "; ".join(parts)
+
 checks = []
 for pid in sorted(P):
     decided, notdec = P[pid]
@@ -71,17 +84,17 @@ for pid in sorted(P):
             "design_ref": "DESIGN.md §5 " + pid + ", rules in §4",
         },
         "level_note": "Trusted: go/types, go/ssa, CHA/VTA call graphs of golang.org/x/tools v0.50.0; decimal128 and the standard library behave as documented (bodies not analysed; effects of library callees come from the table in DESIGN.md Appendix B); the specification-side tables in the checker (Appendix D). Rules: " + ", ".join(rs) + ".",
-        "technique": "repository-specific static rules over AST / type information / SSA / call graph: " + ", ".join(rs[:6]) + (" …" if len(rs) > 6 else ""),
+        "technique": technique(rs),
     })
 
 m = {
  "version": 1,
  "setup_cmd": "./setup.sh",
  "hooks": {"guard": "verif", "enable": "none needed: the checks are static analyses and execute nothing from /repo; no hook commits exist", "baseline_off_cmd": "cd /repo && go test -count=1 ./...", "source_commits": [], "add_only": True},
- "engines": [{"name": "jmescheck", "path": "/verif/checker", "serves_properties": sorted(P), "kind_free_text": "Go program (go/packages + go/types + go/ssa + call graph, x/tools v0.50.0, go1.26.8): ~100 repository-specific rules; obligations keyed by rule+construct; known-findings file; in-memory mutant self-test"}],
+ "engines": [{"name": "jmescheck", "path": "/verif/checker", "serves_properties": sorted(P), "kind_free_text": "Go program (go/packages + go/types + go/ssa + call graph, x/tools v0.50.0, go1.26.8): ~100 repository-specific rules, 14 of them clients of a path-enumerating abstract interpreter over SSA (absint.go); obligations keyed by rule+construct; known-findings file; in-memory mutant self-test (119 breaking changes must fire, 40 behaviour-preserving refactorings must stay silent)"}],
  "checks": checks,
  "not_applicable": [],
- "notes": "All 20 properties are claimed at level 'other': each check decides named structural clauses (see level_claimed.text) and states what it does not decide. Clauses for which static analysis is not applicable here: values computed by helpers (C01, C02, C05, C13, C20); language equivalence with the ABNF incl. whitespace (C04); slice clamping arithmetic (C12); general bounds safety (C03); value-level identities (C17, C18); polynomial degree (C09); actual interleavings (C07 is decided by absence of shared writes). quick = host architecture, CHA call graph, quick mutants; thorough = also GOARCH=386 and arm64, VTA call graph, full mutant corpus.",
+ "notes": "All 20 properties are claimed at level 'other': each check decides named structural clauses (see level_claimed.text) and states what it does not decide. Clauses for which static analysis is not applicable here: values computed by helpers (C01, C02, C05, C13, C20); composition of the per-function productions into the whole recursive language (C04); slice clamping arithmetic (C12); general bounds safety (C03); value-level identities (C17, C18); polynomial degree (C09); actual interleavings (C07 is decided by absence of shared writes). quick = host architecture, CHA call graph, quick mutants; thorough = also GOARCH=386 and arm64, VTA call graph, full mutant corpus plus the neutral-refactoring corpus (every rule must stay silent on it).",
 }
 json.dump(m, open("MANIFEST.json", "w"), indent=1)
 print("wrote MANIFEST.json with", len(checks), "checks")
